@@ -22,5 +22,5 @@ MANIFEST = {
   'level_text': 'Bounded model checking of two pretty-printer kernels with the real pretty_expr.c / pretty_where.c: (1) for every pair of binary operators, the differently grouped trees (a o1 b) o2 c and a o1 (b o2 c) print differently unless o1 = o2 is associative, i.e. the printed expression denotes the tree it came from up to redundant parentheses; (2) a WHERE clause of 1-2 rules prints a label prefix exactly for labelled rules, never the internal placeholder of unlabelled ones, and every rule once, terminated. Kernel level only.',
   'level_note': 'Trusted: CBMC, harness capture of raw()/wrap(), the shadow copies of include/express and include/exppp in which Scope_.u is a struct (CBMC simplifier bug workaround; native replay uses the real headers). Outside: line wrapping (wrap/breakLongStr in exppp.c, char[10000] buffers), declarations/scopes/alphabetisation, statements, aggregate initialisers with repetition, re-parsing by the real parser, idempotence of a second printing.',
   'technique': 'CBMC bounded model checking of goto-cc-compiled pretty_expr.c/pretty_where.c with symbolic operators and label states; native replay',
-  'design_ref': 'DESIGN.md section 3, C07',
+  'design_ref': 'DESIGN.md section 2, C07',
 }
